@@ -138,6 +138,8 @@ type Conn struct {
 	WriteErr func(b []byte, to net.Addr) error
 	// OnRead is called when a datagram is handed to a reader (after the copy into its buffer).
 	OnRead func(d dgram, n int)
+	// OnIdle is called when a reader finds the queue empty and is about to block.
+	OnIdle func()
 	// OnReadEnter is called whenever a reader (re-)enters ReadFrom: the previous datagram has been dealt with.
 	OnReadEnter func()
 	// CloseErr is what Close returns the first time.
@@ -205,6 +207,9 @@ func (c *Conn) ReadFrom(b []byte) (int, net.Addr, error) {
 		}
 		w := make(chan struct{})
 		c.waiters = append(c.waiters, w)
+		if c.OnIdle != nil {
+			c.OnIdle() // the reader has consumed everything queued so far
+		}
 		<-w
 		simrt.Woke(c.siteReadWait)
 	}
